@@ -34,18 +34,21 @@ type c19Keyed struct {
 	cVariant int     // number of client-level spellings
 	rVariant int     // number of request-level spellings
 	method   int     // method of the observing execution
+	marshal  bool    // round 7: every observed request carries a value to marshal (SetBody(struct))
 }
 
 func c19KeyedFamilies() []c19Keyed {
 	return []c19Keyed{
-		{"hs", []int{1, 4, c19HUserAgent}, [][]int{{3}, {c19VEmpty}}, 3, 2, 0},
-		{"ha", []int{7, 9}, [][]int{{3}, {c19VEmpty}}, 2, 2, 0},
-		{"ps", []int{1, 3}, [][]int{{3}}, 2, 2, 0},
-		{"qs", []int{1, 4}, [][]int{{3}}, 2, 2, 0},
-		{"qa", []int{1, 4}, [][]int{{3}}, 2, 2, 0},
-		{"qm", []int{2}, [][]int{{}, {3, 5}}, 1, 1, 0},
-		{"fs", []int{1, 4}, [][]int{{3}}, 1, 1, 1},
-		{"fa", []int{1, 4}, [][]int{{3}}, 1, 1, 1},
+		{"hs", []int{1, 4, c19HUserAgent}, [][]int{{3}, {c19VEmpty}}, 3, 2, 0, false},
+		// round 7, family ct: Content-Type KIND (XML / JSON / neither) at both levels with a value to marshal
+		{"hs", []int{c19HContentType}, [][]int{{c19VCtXML}, {c19VCtJSON}, {3}}, 3, 3, 1, true},
+		{"ha", []int{7, 9}, [][]int{{3}, {c19VEmpty}}, 2, 2, 0, false},
+		{"ps", []int{1, 3}, [][]int{{3}}, 2, 2, 0, false},
+		{"qs", []int{1, 4}, [][]int{{3}}, 2, 2, 0, false},
+		{"qa", []int{1, 4}, [][]int{{3}}, 2, 2, 0, false},
+		{"qm", []int{2}, [][]int{{}, {3, 5}}, 1, 1, 0, false},
+		{"fs", []int{1, 4}, [][]int{{3}}, 1, 1, 1, false},
+		{"fa", []int{1, 4}, [][]int{{3}}, 1, 1, 1, false},
 	}
 }
 
@@ -65,6 +68,8 @@ func (g *c19Gen) keyedOp(o int, code string, variant, k int, vs []int) c19Op {
 			switch {
 			case isReq && variant == 0:
 				q.SetHeader(name, val)
+			case isReq && variant == 2 && k == c19HContentType:
+				q.SetContentType(val)
 			case isReq:
 				q.SetHeaders(map[string]string{name: val})
 			case variant == 0:
@@ -73,6 +78,8 @@ func (g *c19Gen) keyedOp(o int, code string, variant, k int, vs []int) c19Op {
 				c.SetCommonHeaders(map[string]string{name: val})
 			case k == c19HUserAgent:
 				c.SetUserAgent(val)
+			case k == c19HContentType:
+				c.SetCommonContentType(val)
 			default:
 				c.SetCommonHeader(name, val)
 			}
@@ -200,7 +207,7 @@ func (g *c19Gen) execFixed(ri, method int, path []c19Seg, sc int) c19Op {
 // TestVerif_C19_override: request-level vs client-level value of the SAME key, every keyed family.
 func TestVerif_C19_override(t *testing.T) {
 	s := verifh.New(t, "C19", "override",
-		"systematic: every keyed two-level settings family (canonical header incl. User-Agent, non-canonical header, path / query set / query add / query add-many / form set / form add) with the SAME key set at client level and at request level: every spelling of the client setter (single, map, named) x every spelling of the request setter x value class (ordinary, EMPTY string, no values) x equal or different values x target client (original, clone, clone of clone) x client setter before or after R(); observed through the origin: the overriding request, a fresh request of the same client afterwards (no trace), a fresh request of every other client (no effect), settings probes; judged by the value model (Scope.runScope); non-trivial = all of them")
+		"systematic: every keyed two-level settings family (canonical header incl. User-Agent and, with a struct / pointer / slice given to SetBody on every observed request, Content-Type of kind XML / JSON / neither at both levels: the request's picks the marshaller, non-canonical header, path / query set / query add / query add-many / form set / form add) with the SAME key set at client level and at request level: every spelling of the client setter (single, map, named) x every spelling of the request setter x value class (ordinary, EMPTY string, no values) x equal or different values x target client (original, clone, clone of clone) x client setter before or after R(); observed through the origin: the overriding request, a fresh request of the same client afterwards (no trace), a fresh request of every other client (no effect), settings probes; judged by the value model (Scope.runScope); non-trivial = all of them")
 	w := c19NewWorld()
 	defer w.close()
 	hist := map[string]int{}
@@ -225,8 +232,19 @@ func TestVerif_C19_override(t *testing.T) {
 									tgt := depth
 									// the client's value differs from the request's unless both are the empty class
 									cval := append([]int(nil), cvals...)
-									if len(cval) > 0 && cval[0] != c19VEmpty {
+									if len(cval) > 0 && cval[0] != c19VEmpty && !fam.marshal {
 										cval[0] = 5
+									}
+									nbody := 0
+									body := func(rq int) {
+										if fam.marshal {
+											nbody++
+											b, variant := c19MarshalFrom+nbody, cv+rv+depth+nbody
+											ops = append(ops, c19Op{[]string{fmt.Sprintf("S%d:bd,%d", rq, b)}, func(w *c19World) []string {
+												c19MarshalBody(w.owners[rq].r, b, variant)
+												return c19Quiet(1)
+											}})
+										}
 									}
 									other := fam.keys[0]
 									if other == k {
@@ -246,6 +264,7 @@ func TestVerif_C19_override(t *testing.T) {
 										ops = append(ops, g.opNewReq(tgt))
 									}
 									ops = append(ops, g.keyedOp(rq, fam.code, rv, k, rvals))
+									body(rq)
 									path := []c19Seg{{false, 1}}
 									if fam.code == "ps" {
 										path = []c19Seg{{true, k}, {false, 2}, {true, other}}
@@ -255,11 +274,18 @@ func TestVerif_C19_override(t *testing.T) {
 										c2 := (tgt + c) % (depth + 1) // the target first
 										fr := len(g.isReq)
 										ops = append(ops, g.opNewReq(c2))
+										body(fr)
 										ops = append(ops, g.execFixed(fr, fam.method, path, 0))
 										ops = append(ops, g.opProbe(c2))
 									}
 									text := c19Text(ops)
 									trace, ptxt, panicked := w.runProgram(ops)
+									if fam.marshal {
+										s.Count("family:ct-marshal")
+										if ci != ri {
+											s.Count("content-type-kinds-differ")
+										}
+									}
 									s.Count("family:" + fam.code)
 									s.Count(fmt.Sprintf("depth:%d", depth))
 									if len(rvals) > 0 && rvals[0] == c19VEmpty {
